@@ -2385,7 +2385,21 @@ pub fn apply_action(w: &mut World, action: &Value) -> Result<Value, String> {
                     }).unwrap_or(false);
                 let exists = w.env.krill.ca_manager().has_ca(&ca_handle(c))
                     .unwrap_or(false);
-                if !ok || exists || w.cas.contains(&c.to_string()) {
+                // ("again": a CA that was deleted -- and removed by its
+                // parent, its publisher removed at the server -- is created
+                // once more under the same name)
+                let again = action.get("again").and_then(|x| x.as_bool())
+                    .unwrap_or(false);
+                let known = w.cas.contains(&c.to_string());
+                let child_left = w.env.krill.ca_manager()
+                    .get_ca(&ca_handle(p)).map(|ca| {
+                        ca.get_child(&ca_handle(c).convert()).is_ok()
+                    }).unwrap_or(false);
+                let publisher_left = w.env.krill.repo_manager()
+                    .get_publisher_details(ca_handle(c).convert()).is_ok();
+                if !ok || exists
+                    || (known && !(again && !child_left && !publisher_left))
+                {
                     return Ok(json!({"skipped": true}))
                 }
             }
